@@ -1,6 +1,7 @@
 """C16 — graph half: DirectedGraph vs Model/Graph.v vs Spec/GraphSpec.v;
 link half: real parsers with apply_on='instantiate' links end to end vs Model/LinkOrder.v vs Spec/LinkSpec.v."""
 import itertools
+import os
 
 from tie.framework import g_bool, g_list, g_nat, g_pair, g_str, run_impl_parallel
 
@@ -16,7 +17,12 @@ RULE = ("graph cases: every directed graph (self-loops included) on <=3 labelled
         "seeded sample of longer ones over all layouts incl. 4 objects; thorough: every sequence over every layout with <=3 "
         "objects, every acyclic sequence over four class groups (GGGG: all 543 DAGs in all declaration orders, each also with "
         "one seeded cycle-closing link appended), 4000 sampled sequences over each of SN+G+G, GN+G+S, SN+GN, SNN+G, GNN+S and "
-        "300 over each other 4-object layout; source = whole object or attribute and compute_fn present or not chosen per link from the seed, some pairs "
+        "300 over each other 4-object layout; prefix-name cases: the layouts with 2-3 declarations re-run with component names "
+        "of which some are string prefixes of others (schemes a/ab/b, a/ab/abc, a/a_b/ab, ba/b/a; the permutations of a scheme "
+        "are the declaration orders of the names): quick: every link sequence of length <=2 over G G G, S S S, G S G, G G, "
+        "S G in all 6 permutations of a/ab/b plus one seeded permutation of each other scheme, one seeded renaming of every "
+        "sequence over the other layouts with <=3 objects; thorough: all of these layouts systematically plus sampled longer "
+        "sequences and the 4-object layouts; source = whole object or attribute and compute_fn present or not chosen per link from the seed, some pairs "
         "of links with a common target merged into one two-source link; non-trivial = >=1 link; "
         "distinct = distinct (case, observation)")
 TRUSTED = [
@@ -34,9 +40,17 @@ ASSUMPTIONS = [
     "are not modelled); sources are components (class group or class-typed argument) as link_arguments requires",
     "when a not-yet-instantiated source Namespace is handed on as a raw link value (possible only outside the guard) the "
     "model stops (outcome Unmodelled); exceptions escaping instantiate_classes are compared by kind 'exception' only",
+    "links whose source and target lie in the same class-typed argument (is_nested_instantiation_link) are handed to the "
+    "sub-parser by the code; the model only covers the shape the generator produces (attribute of the component itself as "
+    "source: rejected by the sub-parser at instantiation, finding nested-self-link)",
 ]
 EXHAUSTIVE = {"quick": False, "thorough": False}
-FINDING_CLASSES = {1: "nested-target-order", 2: "source-under-group"}
+FINDING_CLASSES = {1: "nested-target-order", 2: "source-under-group", 3: "nested-self-link"}
+# Which model the implementation is compared with: "judge" = the pinned tree; after the repairs have been applied to the
+# implementation set "judge_fixed_order" (fixes/C16-nested-target-order.patch only), "judge_fixed_source"
+# (fixes/C16-source-under-group.patch only) or "judge_fixed" (both) — coq/Corr/C16Judge.v, notes/C16.md. The environment
+# variable is for trying a repaired worktree without editing this file.
+JUDGE = os.environ.get("C16_JUDGE", "judge")
 LABELS = "abcdefg"
 
 
@@ -254,8 +268,54 @@ def link_cases(rng, tier):
     return cases
 
 
+# Component names of which some are plain string prefixes of others: a key test written as startswith(key) instead of
+# key == dest or startswith(key + ".") pulls / resolves the wrong sibling only then.  The position in a scheme is the
+# declaration position, so the permutations of a scheme are the declaration orders of the names.
+NAME_SCHEMES = [("a", "ab", "b"), ("a", "ab", "abc"), ("a", "a_b", "ab"), ("ba", "b", "a")]
+
+
+def rename_case(case, names):
+    m = {d[0]: names[i] for i, d in enumerate(case["decls"])}
+
+    def rk(k):
+        head, dot, rest = k.partition(".")
+        return m[head] + dot + rest
+
+    return {"kind": "links", "decls": [[m[n], s] for n, s in case["decls"]],
+            "links": [dict(l, src=[rk(x) for x in l["src"]], tgt=rk(l["tgt"])) for l in case["links"]]}
+
+
+def prefix_name_cases(rng, tier):
+    cases = []
+    for decls in all_layouts(3 if tier == "quick" else 4):
+        if not 2 <= len(decls) <= 3:
+            continue
+        key = " ".join(s for _, s in decls)
+        nu = sum(NUNITS[s] for _, s in decls)
+        if nu <= 3:
+            seqs, units = link_sequences(decls, 2)
+            if tier != "quick":
+                more, _ = link_sequences(decls, 6, rng, 40)
+                seqs += more
+        else:
+            seqs, units = link_sequences(decls, 5, rng, 150)
+        systematic = nu <= 3 and (tier != "quick" or key in ("G G G", "S S S", "G S G", "G G", "S G"))
+        for seq in seqs:
+            base = make_case(decls, seq, units, rng)
+            if systematic:
+                perms = [p[:len(decls)] for p in itertools.permutations(NAME_SCHEMES[0])]
+                perms += [tuple(rng.sample(sch, len(decls))) for sch in NAME_SCHEMES[1:]]
+                if tier != "quick":
+                    perms += [tuple(rng.sample(sch, len(decls))) for sch in NAME_SCHEMES[1:]]
+            else:
+                perms = [tuple(rng.sample(rng.choice(NAME_SCHEMES), len(decls)))]
+            for names in sorted(set(perms)):
+                cases.append(rename_case(base, names))
+    return cases
+
+
 def generate(rng, tier):
-    return link_cases(rng, tier) + graph_cases(rng, tier)
+    return link_cases(rng, tier) + prefix_name_cases(rng, tier) + graph_cases(rng, tier)
 
 
 # ---------------------------------------------------------------------------------------------------------------------
@@ -404,12 +464,39 @@ def shrink(case):
 
 
 META = {
-    "level_text": "Theorem C16_topo_sort_correct (coq/Properties/C16.v): the DFS topological sort, for graphs of any size, "
-                  "returns a duplicate-free permutation of the nodes with every edge pointing forward and no cycle present, or "
-                  "a real cycle (edge u->v with v reaching u), and never runs out of fuel. The Gallina model is tied to "
-                  "DirectedGraph by running both on every digraph on <=3 nodes, every loop-free digraph on 4 nodes and random "
-                  "larger ones; agreement with model and with the executable spec is computed inside Coq.",
-    "level_note": "Trusted: Coq kernel/VM; the hand-written model's faithfulness outside the enumerated graphs; the observation "
-                  "harness. No axioms (Print Assumptions: closed under the global context).",
-    "technique": "Rocq proof by DFS invariants (induction on fuel and successor list) + exhaustive small-graph correspondence evaluated in Coq",
+    "level_text": "Proved in Coq for ALL inputs of the modelled space (coq/Properties/C16.v): (1) C16_topo_sort_correct / "
+                  "C16_topo_on_edge_lists: DirectedGraph.add_edge + get_topological_order, for any edge list over any labels, "
+                  "never runs out of fuel and returns either a duplicate-free order of exactly the mentioned nodes with every edge "
+                  "forward (and then the graph is acyclic) or an edge that really closes a cycle; (2) "
+                  "C16_sources_before_targets: for any components, any links and any key strings, when instantiation_order "
+                  "answers with an order then — inside the guard enclosing_ok — the sequence walked by instantiate_classes "
+                  "(depth sort + ActionLink.reorder) has the component of every link source strictly before every component "
+                  "enclosing that link's target; C16_order_respects_links (unguarded, on the order itself); "
+                  "C16_each_component_once (the sequence is a permutation of the components); (3) "
+                  "C16_links_accepted_iff_acyclic / C16_cycle_rejected_at_link_time: the sequence of link_arguments calls is "
+                  "accepted iff the link graph is acyclic after every call, otherwise exactly the first cycle-closing call "
+                  "raises. All of these hold for the pinned code and for the code after the two proposed repairs (parameter fx). "
+                  "(4) C16_small_space_model_meets_spec: kernel-evaluated over every layout of class groups / class-typed "
+                  "arguments (nested up to three deep) with <=3 constructed objects and every arrangement of four flat ones, "
+                  "times every sequence of one or two links (any source component, object or attribute; any target object; "
+                  "compute_fn or not; cycles included; 87,172 cases): inside the guard link_class=0 the model's run is what the "
+                  "independent Spec/LinkSpec.v demands (each object constructed once, sources first, every linked parameter "
+                  "receives the source object / attribute / compute_fn result, compute_fn called once, cycle-closing link "
+                  "rejected at that call). Three refuted-unguarded witnesses (C16_nested_target_order_refuted, "
+                  "C16_source_under_group_refuted, C16_nested_self_link_refuted) = the three open findings. "
+                  "Only exercised by the correspondence (not proved in general): that the values received, the exactly-once "
+                  "construction and the compute_fn calls of the model satisfy the spec beyond the small space (longer link "
+                  "sequences, two-source links, four-object nested layouts), and that model = implementation (11.9k cases quick, "
+                  "~100k thorough: every digraph on <=3 nodes, every loop-free one on 4, all 543 DAGs on four class groups in all "
+                  "declaration orders).",
+    "level_note": "Trusted: Coq kernel/VM; the hand-written models Model/Graph.v and Model/LinkOrder.v outside the enumerated "
+                  "cases (in particular the abstraction of a parser to a list of components with dest/kind/units, and of "
+                  "find_subclass_action_or_class_group to resolve_src); the observation harness tie/impl/c16_*.py with its scratch "
+                  "classes. 'Cycle' in theorems (3) means a cycle of the graph the code builds (link_edges); its agreement with "
+                  "cycles between the constructed objects (Spec/LinkSpec.dep_edges) is proved on the small space and tested "
+                  "beyond, and fails exactly in the finding classes 1 and 3. No axioms (Print Assumptions: closed under the "
+                  "global context).",
+    "technique": "Rocq proofs: DFS invariants (induction on fuel and successor list), build invariant over add_edge, "
+                 "index/pull-position argument for reorder, induction over the link_arguments calls; one vm_compute product over "
+                 "the small space; correspondence of model and real parsers judged inside Coq",
 }
